@@ -2081,7 +2081,9 @@ def _try_import(imp, namespace):
     try:
         exec(stmt, scratch_namespace)
         imported = scratch_namespace[name0]
-    except Exception as e:
+    except (Exception, SystemExit) as e:
+        # (SystemExit: a module that calls sys.exit() when it is imported,
+        # e.g. a script without a __main__ guard, is a failed import too.)
         logger.warning("Error attempting to %r: %s: %s", stmt, type(e).__name__, e,
                        exc_info=True)
         _IMPORT_FAILED.add(imp)
